@@ -2,6 +2,7 @@
 C16 — Timed-out handlers cannot affect what is sent.
 -/
 import FhVerif.Model.Timeout
+import FhVerif.Model.TimeoutSem
 
 namespace Fh.Props.C16
 open Fh Fh.Model
@@ -106,5 +107,70 @@ theorem abandoned_never_reused (es : List TEvent) :
 /-! non-vacuity: handler writes, times out, keeps writing; the wire shows the timeout response -/
 example : (wireOf ([TEvent.handlerWrite ⟨200, [1], []⟩, .timeout ⟨408, [2], []⟩, .lateWrite 0 ⟨299, [3], []⟩].foldl tstep tinit)).status = 408 := by
   decide
+
+/-! ### "At most Concurrency wrapped handlers run at the same time; excess calls are answered with 429" -/
+section Sem
+open Fh.Model.TimeoutSem
+
+/-- every token in concurrencyCh belongs to a wrapped handler that is still running, and there are at most `cap` -/
+def SemInv (s : St) : Prop := s.running = s.tokens ∧ s.tokens ≤ s.cap
+
+theorem sem_step_inv (s : St) (e : Ev) (h : SemInv s) : SemInv (step s e).1 ∧ (step s e).1.cap = s.cap := by
+  obtain ⟨h1, h2⟩ := h
+  cases e
+  · by_cases hc : s.tokens < s.cap
+    · have : step s .call = ({ s with tokens := s.tokens + 1, running := s.running + 1 }, .started) := by simp [step, hc]
+      rw [this]; exact ⟨⟨by show s.running + 1 = s.tokens + 1; omega, by show s.tokens + 1 ≤ s.cap; omega⟩, rfl⟩
+    · have : step s .call = (s, .rejected) := by simp [step, hc]
+      rw [this]; exact ⟨⟨h1, h2⟩, rfl⟩
+  · by_cases hc : 0 < s.running
+    · have : step s .finish = ({ s with tokens := s.tokens - 1, running := s.running - 1 }, .none) := by simp [step, hc]
+      rw [this]; exact ⟨⟨by show s.running - 1 = s.tokens - 1; omega, by show s.tokens - 1 ≤ s.cap; omega⟩, rfl⟩
+    · have : step s .finish = (s, .none) := by simp [step, hc]
+      rw [this]; exact ⟨⟨h1, h2⟩, rfl⟩
+  · exact ⟨⟨h1, h2⟩, rfl⟩
+
+theorem sem_run_inv (es : List Ev) (s : St) (h : SemInv s) : SemInv (run s es) ∧ (run s es).cap = s.cap := by
+  induction es generalizing s with
+  | nil => exact ⟨h, rfl⟩
+  | cons e rest ih =>
+    have h1 := sem_step_inv s e h
+    have h2 := ih (step s e).1 h1.1
+    exact ⟨h2.1, h2.2.trans h1.2⟩
+
+/-- C16 (bound): after any history of calls, handler returns and timeouts — in any order and number — at most
+    Concurrency wrapped handlers are running, abandoned ones included -/
+theorem at_most_concurrency_running (cap : Nat) (es : List Ev) : (run (init cap) es).running ≤ cap := by
+  have h := sem_run_inv es (init cap) ⟨rfl, Nat.zero_le _⟩
+  have hc : (run (init cap) es).cap = cap := h.2
+  have := h.1
+  unfold SemInv at this
+  omega
+
+/-- C16 (429): in every reachable state, a call that finds Concurrency handlers running is rejected and starts nothing;
+    a call that finds fewer is started -/
+theorem excess_call_rejected (cap : Nat) (es : List Ev) :
+    let s := run (init cap) es
+    (s.running = cap → step s .call = (s, .rejected)) ∧ (s.running < cap → (step s .call).2 = .started) := by
+  intro s
+  have h := sem_run_inv es (init cap) ⟨rfl, Nat.zero_le _⟩
+  have hc : s.cap = cap := h.2
+  have hi : s.running = s.tokens ∧ s.tokens ≤ s.cap := h.1
+  constructor
+  · intro hr
+    have : ¬ s.tokens < s.cap := by omega
+    simp [step, this]
+  · intro hr
+    have : s.tokens < s.cap := by omega
+    simp [step, this]
+
+/-- a timeout firing does not free a slot: only the return of the wrapped handler does -/
+theorem timeout_fire_keeps_slot (s : St) : (step s .fire).1 = s := rfl
+
+/-! non-vacuity: Concurrency 1, a handler that outlives its timeout, then two more requests: both 429; once it returned, 200 -/
+example : serve (init 1) [true, false, true] = [408, 429, 429] := by decide
+example : serve (init 2) [true, false, true, false] = [408, 200, 408, 429] := by decide
+example : (run (init 1) [.call, .fire, .call, .finish, .call]).running = 1 := by decide
+end Sem
 
 end Fh.Props.C16
